@@ -132,7 +132,7 @@ func minUint(a, b uint64) uint64 {
 
 func main() {
 	r := vf.NewRun("C05", "exploration",
-		"invoke transactions (random bytes, scripts that write/notify/transfer then fault, drain their payer, call natives with random args, loop, or succeed) x gas price {0,1,500,2500,random} x gas limit around the code-length and minimum gas x payer balance from 0 to ample; each executed alone by ExecuteBlock on committed states of a solo ledger; a case is non-trivial when the tx is charged or fails; distinct by (script kind, price class, limit class, balance class, outcome)")
+		"invoke transactions (random bytes, scripts that write/notify/transfer then fault, drain their payer, call natives with random args, loop, or succeed) x gas price {0,1,500,2500,random} x gas limit around the code-length and minimum gas x payer balance from 0 to ample; each executed alone by ExecuteBlock on committed states of a solo ledger; a case is non-trivial when the tx is charged or fails; distinct by (script kind, price class, limit class, balance class, outcome); one case in eight names a payer that is not among the signers. Then composed blocks: every failing kind (fault after storage writes / native ONG or ONT transfers / Contract.Create / Destroy of a contract with and without storage / Migrate from the entry script and of a contract with storage / notify only; out of gas after a put or after Contract.Create alone; balance below the minimum fee; balance spent inside; unauthorised transfer; native call failing half-way; payer that did not sign) x every successful kind right after it (NeoVM invoke, native invoke, deploy, EVM transfer, EVM call doing SSTORE) with a rotating successful kind right before it, plus random blocks of 3-8 transactions with up to 4 failing ones; gas price {0,500,2500}; each block and the same block without its failed transactions are executed by ExecuteBlock on the same committed state and every third block is committed (consensus path / sync path alternately) and judged again from the state dump and the stored notifications; distinct by the sequence of (kind, price, state)")
 	scratch := vf.Scratch("c05")
 	defer os.RemoveAll(scratch)
 	rng := vf.NewRNG(vf.Seed())
@@ -166,6 +166,7 @@ func main() {
 		panic(err)
 	}
 	g := &gen{w: w, payers: payers}
+	stranger := chain.DetAccount(tag + "/stranger") // owns nothing, signs for payers that do not sign
 	gov := nutils.GovernanceContractAddress
 	N := vf.N(1500, 40000)
 	_, _, dump := c.DumpState()
@@ -224,7 +225,15 @@ func main() {
 			limit, lclass = 40000+uint64(g.rng.Intn(100000)), "ample"
 		}
 		mt := w.TB.Invoke(price, limit, code)
-		if err := chain.Sign(mt, payer); err != nil {
+		// one case in eight names the payer without its signature (possible in a block assembled at ledger
+		// level): the fee transfer is then refused, so nothing may move and no gas may be reported
+		signer := payer
+		if g.rng.Intn(8) == 0 {
+			signer = stranger
+			mt.Payer = payer.Address
+			kind += "/payer-did-not-sign"
+		}
+		if err := chain.Sign(mt, signer); err != nil {
 			panic(err)
 		}
 		tx := chain.Immutable(mt)
@@ -233,7 +242,7 @@ func main() {
 			panic(err)
 		}
 		res, err := c.Ledger.ExecuteBlock(blk)
-		id := map[string]interface{}{"case": i, "kind": kind, "gas_price": price, "gas_limit": limit, "payer_balance": balBefore.String(), "script_hex": hex.EncodeToString(code), "height": blk.Header.Height}
+		id := map[string]interface{}{"case": i, "kind": kind, "gas_price": price, "gas_limit": limit, "payer_balance": balBefore.String(), "script_hex": hex.EncodeToString(code), "height": blk.Header.Height, "payer_signed": signer == payer, "raw_tx_hex": hex.EncodeToString(tx.ToArray())}
 		if err != nil {
 			r.Count("block_level_error")
 			r.Eval("")
@@ -332,6 +341,9 @@ func main() {
 		if outcome == "fail" {
 			if price > 0 {
 				r.Count("failed_and_charged_path")
+				if signer != payer {
+					r.Count("failed_and_charged_path_payer_did_not_sign")
+				}
 			}
 			for k := range effect {
 				if k != pk && k != gk {
@@ -392,7 +404,10 @@ func main() {
 	r.Require("no_fee_on_failure", 20)
 	r.Require("failed_and_charged_path", 50)
 	r.Require("success_and_charged_path", 20)
-	r.Assume("quantifier is invoke transactions (deploy and EIP-155 transactions are only chain furniture here); WASM invokes not driven")
+	r.Require("failed_and_charged_path_payer_did_not_sign", 30)
+	runCompositions(r, w, c, rng, tag)
+	r.Assume("quantifier is invoke transactions (deploy and EIP-155 transactions are only chain furniture here, placed before and after the failing invokes); WASM invokes not driven")
+	r.Assume("reference of a composed block = the same block without its failed transactions, executed by the same executor on the same committed state; the successful transactions are signed by accounts other than the failing transactions' payers, so the only keys they share with a failed transaction's fee are the governance ONG balance (compared arithmetically)")
 	os.RemoveAll(scratch)
 	r.Finish()
 }
